@@ -1258,6 +1258,16 @@ fn literal_to_asg_texpr(literal: &synast::Literal) -> Option<asg::TExpr> {
 // We don't convert to asg::Block, because these lists of statements go into
 // other block-like structures as well.
 fn block_expr_to_asg_stmt_list(block: synast::BlockExpr, context: &mut Context) -> Vec<asg::Stmt> {
+    // An expression in front of the closing `}` that is not terminated by `;` is not a
+    // statement in the syntax tree. There are no such tail expressions in OpenQASM 3. Report
+    // it rather than dropping it silently.
+    for tail_expr in synast::AstNode::syntax(&block)
+        .children()
+        .filter(|node| !<synast::Stmt as synast::AstNode>::can_cast(node.kind()))
+        .filter_map(<synast::Expr as synast::AstNode>::cast)
+    {
+        context.insert_error(NotImplementedError, &tail_expr);
+    }
     block
         .statements()
         .filter_map(|syn_stmt| stmt_to_asg_stmt(syn_stmt, context))
